@@ -380,8 +380,8 @@ End StructEq.
    seen is replaced by the copy made for that ID. *)
 
 (* DupAttribute: every field copied by assignment (Validation and Meta through their
-   own Dup, which copy the Required slice and the map), Docs is not copied *)
-Definition dup_info (i : ainfo) : ainfo := AI (a_meta i) (a_val i) (a_desc i) false (a_other i).
+   own Dup, which copy the Required slice and the map; the Docs pointer is kept) *)
+Definition dup_info (i : ainfo) : ainfo := AI (a_meta i) (a_val i) (a_desc i) (a_docs i) (a_other i).
 
 (* ResultTypeExpr.Dup: Identifier and the Views slice (the same view pointers) are
    kept, ContentType is not copied *)
